@@ -7,6 +7,7 @@ use proptest::strategy::BoxedStrategy;
 use serde_json::{json, Value};
 use std::collections::BTreeSet;
 
+pub mod keys;
 pub mod seq;
 
 pub type NonTrivial = fn(&BTreeSet<String>) -> bool;
@@ -180,6 +181,7 @@ pub fn replay_any(body: &Value) -> Result<Option<String>, String> {
             Ok(out.violation.map(|v| format!("[{:?}] {}", v.oracle, v.msg)))
         }
         Some("c16") => seq::c16_replay(body),
+        Some("c14") => keys::replay(body),
         Some("c02-erasure") => seq::c02_erasure_replay(body),
         Some(k) => Err(format!("unknown replay kind {}", k)),
         None => Err("replay without kind".into()),
